@@ -1,6 +1,6 @@
 (** C13 — membership: no false deaths on a healthy network, real failures are detected.
     Only statements; every proof is in NodeProofs.v / PhiProofs.v / NetProofs.v. *)
-From HS Require Import Base.Prelude C13.Model C13.PhiModel C13.NodeProofs C13.PhiProofs.
+From HS Require Import Base.Prelude C13.Model C13.PhiModel C13.Net C13.NodeProofs C13.PhiProofs C13.NetProofs.
 From Coq Require Import QArith.
 Local Open Scope Z_scope.
 
@@ -63,3 +63,38 @@ Theorem c13_unavailable_stays :
       is_available erfc log10 sqrt sqrt2 thr d t2 = false.
 Proof. exact unavailable_stays. Qed.
 Print Assumptions c13_unavailable_stays.
+
+(** Accuracy.  In a cluster whose network delivers every message within [d] with [2 d] below
+    the ack timeout ([cfg_ok]), started as start() leaves it ([init_ok]: nobody DEAD, symmetric
+    membership, only probe ticks scheduled), along every schedule of [Net.wstep] — every
+    interleaving of same-time events, every per-message delay in [0, d], every shuffle, every
+    phi decision — no member is ever marked DEAD, no "dead" update is queued or in flight and
+    no suspicion timeout is ever scheduled. *)
+Theorem c13_no_false_dead_healthy :
+  forall (cfgs : Z -> cfg) (d : Z), cfg_ok cfgs d ->
+  forall w0 w : world, init_ok w0 -> reach cfgs d w0 w ->
+    (forall n m, In m (members (nodes w n)) -> m_state m <> Dead) /\
+    (forall n u, In u (pend (nodes w n)) -> u_kind u <> 1) /\
+    (forall e, In e (pool w) ->
+       match p_kind e with
+       | PSusp _ => False
+       | PPing _ us | PAck _ us => forall u, In u us -> u_kind u <> 1
+       | _ => True
+       end).
+Proof. exact no_false_dead. Qed.
+Print Assumptions c13_no_false_dead_healthy.
+
+(** ... in particular from the start configuration of an n-member full mesh, for every n,
+    every probe interval and every initial probe order. *)
+Theorem c13_no_false_dead_mesh :
+  forall (cfgs : Z -> cfg) (d : Z), cfg_ok cfgs d ->
+  forall (n probe : Z) (ord : Z -> list Z) (w : world),
+    reach cfgs d (mesh_world n probe ord) w ->
+    forall i m, In m (members (nodes w i)) -> m_state m <> Dead.
+Proof. exact no_false_dead_mesh. Qed.
+Print Assumptions c13_no_false_dead_mesh.
+
+(** the hypotheses are satisfiable: probe interval 1 s, ack timeout 0.5 s, delays up to 0.2 s *)
+Example cfg_ok_satisfiable :
+  cfg_ok (fun i => mkCfg i 1000000000 500000000 5000000000 3 true) 200000000.
+Proof. split; [lia|]. intros n; cbn. lia. Qed.
